@@ -5,7 +5,7 @@
 Require Extraction.
 Require Import ExtrOcamlBasic.
 From Coq Require Import ZArith.
-From BE Require Model.Timer Model.Regs Model.Decode Model.Lcd Model.Kbd Model.Sched.
+From BE Require Model.Timer Model.Regs Model.Decode Model.Lcd Model.Kbd Model.Sched Model.MemBus.
 Extraction Language OCaml.
 
 Definition timer_py_run := Timer.py_run.
@@ -31,10 +31,15 @@ Definition kbd_rs_run (cfg : Kbd.kcfg) (irq : bool) := Kbd.rs_run cfg irq Kbd.rs
 Definition sched_spawn_all := Sched.spawn_all.
 Definition sched_drive := Sched.drive.
 
+Definition mem_py_run (cfg : MemBus.config) := MemBus.py_run cfg nil.
+Definition mem_rs_run (cfg : MemBus.config) := MemBus.rs_run cfg nil.
+Definition mem_card_slot := MemBus.card_slot.
+
 Extraction "Extract/model.ml"
   BinInt.Z.add timer_py_run timer_rs_run timer_py_init timer_rs_init
   regs_py_run regs_rs_run
   dec_decode dec_encode dec_info dec_text dec_llil dec_emu
   lcd_py_run lcd_rs_run
   kbd_py_run kbd_rs_run
-  sched_spawn_all sched_drive.
+  sched_spawn_all sched_drive
+  mem_py_run mem_rs_run mem_card_slot.
